@@ -62,7 +62,7 @@ class Gen5(gen.Gen):
         w = dict(gen.W_STRUCT)
         w.pop("mke_ill", None)
         w.update({"mkv_u": 1, "mku": 1, "u_add": 2, "u_rm": 1, "adjdict": 2, "adjmatrix": 2,
-                  "q_nb": 40, "q_fl": 5, "q_trav": 10, "q_search": 4, "q_render": 2, "cache": 5, "reload": 1})
+                  "q_nb": 40, "q_fl": 5, "q_trav": 10, "q_search": 4, "q_render": 4, "cache": 5, "reload": 1})
         super().__init__(rng, "C01", w)
         self.queried = []
         self.dup_uids = rng.random() < 0.4
@@ -146,7 +146,10 @@ class Gen5(gen.Gen):
 
     def g_q_render(self, pool):
         u = self._pick(self.universes(pool))
-        return None if u is None else ["render", u]
+        # a rendering between two queries is a read like any other (with a sort key, through the other exporters)
+        # (not PlantUML: it walks a SET of links, so on a degenerate graph which bad link it trips over first - and
+        # with it the exception type - depends on object addresses, caching or not)
+        return None if u is None else ["render", u, self.rng.choice(["plain", "sorted", "sorted", "pyvis"])]
 
     def g_cache(self, pool):
         return ["cache", self.rng.random() < 0.6]
